@@ -872,6 +872,9 @@ func decodeData(ep string, raw json.RawMessage, meta map[string]string) []string
 		if err := json.Unmarshal(raw, &arr); err != nil {
 			return []string{"undecodable:" + err.Error()}
 		}
+		if arr == nil { // "Return empty json array instead of null"
+			return []string{"null"}
+		}
 		r := []string{}
 		for _, e := range arr {
 			o := mk()
